@@ -179,12 +179,18 @@ def metaOkB (d : Doc) : Bool :=
   | .ok nmd, .ok _, .ok _ => !(d.spots.any (fun s => s.roi.isSome)) || nmd.any (fun kv => kv.1 == "POSITION_X")
   | _, _, _ => false
 
-/-- executable check that every track is connected (`GeffProps.C16.TracksConnected`) -/
+/-- executable check that every track is connected (`GeffProps.C16.TracksConnected`): per track id,
+the source of every link lies in the component of the first link's source -/
 def tracksConnectedB (d : Doc) : Bool :=
   let L := tagged (attrsMd d) d.tracks
-  L.all (fun x =>
-    let es := (L.filter (fun z => decide (z.2 = x.2))).map (fun z => (z.1.s, z.1.t))
+  (Geff.Graph.dedup (L.map (·.2))).all (fun tid =>
+    let Lt := L.filter (fun z => decide (z.2 = tid))
+    let es := Lt.map (fun z => (z.1.s, z.1.t))
     let V := es.flatMap (fun e => [e.1, e.2])
-    L.all (fun y => !decide (x.2 = y.2) || (Geff.Graph.component es V x.1.s).contains y.1.s))
+    match Lt with
+    | [] => true
+    | r :: _ =>
+      let comp := Geff.Graph.component es V r.1.s
+      Lt.all (fun y => comp.contains y.1.s))
 
 end Geff.TrackMate
